@@ -90,6 +90,10 @@ Gen == LET c0 == IF cnt = -1 THEN 0 ELSE cnt
           /\ cnt' = c1 + 1 /\ s' = [s EXCEPT !.gen = @ \cup {c1 + 1}] /\ UNCHANGED idSet
           /\ act' = [Act("gen", <<>>, 0, "ok") EXCEPT !.gid = c1 + 1]
 
+RemoveAbsent(n, list) ==     \* remove_obstacle of an obstacle that is not in the scenario: the else branch only warns
+    /\ n \notin s.C /\ Tok[n].k \in ObsKinds
+    /\ UNCHANGED <<s, idSet, cnt>> /\ act' = Act("remove_absent", <<n>>, IF list THEN 1 ELSE 0, "ok")
+
 Seqs1(S) == {<<a>> : a \in S}
 Seqs2(S) == {<<a, b>> : a, b \in S} \ {<<a, a>> : a \in S}
 OfKind(ks) == {n \in s.C : Tok[n].k \in ks}
@@ -106,6 +110,7 @@ Next ==
     \/ \E q \in Seqs2(OfKind({"inter"})) \cup Seqs2(OfKind({"sign"})) :
             RemoveSimple(IF Tok[q[1]].k = "inter" THEN "remove_inter" ELSE "remove_sign", {"inter", "sign"}, q, TRUE)
     \/ \E q \in Seqs1(OfKind({"lanelet"})) \cup Seqs2(OfKind({"lanelet"})) : \E r \in BOOLEAN : RemoveLanelet(q, r)
+    \/ \E n \in Objs \ s.C : \E l \in BOOLEAN : RemoveAbsent(n, l)
     \/ Erase
     \/ Gen
 Spec == Init /\ [][Next]_vars
